@@ -13,6 +13,7 @@ import Handlers.HC15
 import Handlers.HC16
 import Handlers.HC17
 import Handlers.HC19
+import Handlers.HC02
 import Handlers.HC11
 import Handlers.HC18
 import Handlers.HC09
@@ -20,7 +21,7 @@ import Handlers.HC09
 namespace Handlers
 
 def all : List (String × (List Nat → Option String)) :=
-  hC04 ++ hC06 ++ hC07 ++ hC08 ++ hC13 ++ hC14 ++ hC15 ++ hC16 ++ hC17 ++ hC19 ++ hC11 ++ hC18
+  hC04 ++ hC06 ++ hC07 ++ hC08 ++ hC13 ++ hC14 ++ hC15 ++ hC16 ++ hC17 ++ hC19 ++ hC02 ++ hC11 ++ hC18
     ++ hC09
 
 end Handlers
